@@ -177,7 +177,7 @@ def fake_self(statuses, tss, owners, hbs, max_pending):
 def mem_pending(s0: int, t0: float, s1: int, t1: float, now: float, max_pending: float) -> bool:
     """
     pre: 0 <= s0 <= 3 and 0 <= s1 <= 3
-    pre: max_pending >= 0
+    pre: 0 <= max_pending <= 1e9 and -1e12 <= t0 <= 1e12 and -1e12 <= t1 <= 1e12 and -1e12 <= now <= 1e12
     post: _
     """
     NOW[0] = now
@@ -189,7 +189,7 @@ def mem_pending(s0: int, t0: float, s1: int, t1: float, now: float, max_pending:
 def mem_running(s0: int, o0: int, s1: int, o1: int, hb1: float, p1: bool, hb2: float, p2: bool, now: float, timeout: float) -> bool:
     """
     pre: 0 <= s0 <= 3 and 0 <= s1 <= 3 and 0 <= o0 <= 2 and 0 <= o1 <= 2
-    pre: timeout >= 0
+    pre: 0 <= timeout <= 1e9 and -1e12 <= hb1 <= 1e12 and -1e12 <= hb2 <= 1e12 and -1e12 <= now <= 1e12
     post: _
     """
     NOW[0] = now
@@ -206,7 +206,7 @@ def mem_running(s0: int, o0: int, s1: int, o1: int, hb1: float, p1: bool, hb2: f
 
 def mem_twin(s0: int, t0: float, now: float, max_pending: float) -> bool:
     """
-    pre: 0 <= s0 <= 3 and max_pending >= 0
+    pre: 0 <= s0 <= 3 and 0 <= max_pending <= 1e9 and -1e12 <= t0 <= 1e12 and -1e12 <= now <= 1e12
     post: _
     """
     mem_pending(s0, t0, 0, 0.0, now, max_pending)
@@ -214,7 +214,7 @@ def mem_twin(s0: int, t0: float, now: float, max_pending: float) -> bool:
 
 def mem_canary_strict(s0: int, t0: float, now: float, max_pending: float) -> bool:
     """
-    pre: 0 <= s0 <= 3 and max_pending >= 0
+    pre: 0 <= s0 <= 3 and 0 <= max_pending <= 1e9 and -1e12 <= t0 <= 1e12 and -1e12 <= now <= 1e12
     post: _
     """
     # wrong spec on purpose (strict > instead of >=): the boundary now - ts == limit must refute it
@@ -498,7 +498,7 @@ def run(ctx: Ctx) -> None:
                               "Mem/SQLite register_runner_heartbeats/_get_active_runners/get_running_invocations_for_recovery (heartbeat histories)",
                               "core_tasks.recover_pending_invocations/recover_running_invocations (line-level twins) + set_invocation_status/reroute_invocations twins"]
     ctx.bounds = {"sql": "one invocation row (status in {PENDING, RUNNING, other}, owner in {NULL, r1, r2}), two heartbeat rows (present/absent), clock, limits: unbounded reals",
-                  "mem scans": "2 invocations, 2 runners, symbolic real-valued timestamps/heartbeats/clock/limits",
+                  "mem scans": "2 invocations, 2 runners, symbolic real-valued timestamps/heartbeats/clock in [-1e12, 1e12], limits in [0, 1e9] (no NaN/inf)",
                   "heartbeat histories": "4 ops over 8 letters (heartbeat r1/r2 with either atomic-service flag, clock advance 0/30/60/61 s; timeout 60 s)",
                   "recovery run": f"2-3 invocations, any subset fresh, owner moves one of them (PENDING->RUNNING/KILLED or RUNNING->SUCCESS/KILLED) at preemption point 0..{kmax}; both backends"}
     ctx.stubs += ["mem scans run on a SimpleNamespace `self` with symbolic floats (CrossHair models float as real)", "clock = CounterClock in both orchestrator modules",
